@@ -361,3 +361,75 @@ Fixpoint wc_run_f (f : wc_fault) (s : wc_state) (sched : list wc_item) : wc_stat
       let '(s2, h) := wc_run_f f s1 rest in
       (s2, map (pair (wc_item_tid it)) acts ++ h)
   end.
+
+(* ---------------------------------------------------------------- the steps of the harness
+   Two places where one step of the real goroutine under the cooperative scheduler is more than
+   one [wc_step]:
+
+   (1) WaitUtil has no yield point between reading closeChan and its select.  The model parks
+   the thread at [WWait c] in any case (an interleaving point more than the code has); the real
+   step that begins to wait on an already closed channel also returns true.  [wc_hstep] = one
+   step, followed at once by the same thread's next step when it has just begun to wait on a
+   closed channel.
+
+   (2) A thread that was resumed while parked before the HELD mutex (a "forced" step: in the
+   model the disabled no-op) is really inside sync.Mutex.Lock(); it is the only contender, so the
+   step of the holder that unlocks is followed at once by its acquisition.  [wc_lwstep] carries
+   that thread ([inlock]) along; at most one thread is inside Lock() at a time.
+
+   Both only run [wc_step]s: every run of the harness is a run of the model
+   (wc_lwrun_is_run in props/C16.v). *)
+Definition wc_hstep (s : wc_state) (it : wc_item) : wc_state * list wc_act :=
+  let '(s1, acts) := wc_step s it in
+  match it with
+  | ITimeout _ => (s1, acts)
+  | IRun i =>
+      match nth_error (wc_threads s1) i with
+      | Some th =>
+          match wc_pcof th with
+          | WWait c =>
+              if wc_closedb (wc_sh s1) c
+              then let '(s2, acts2) := wc_step s1 (IRun i) in (s2, acts ++ acts2)
+              else (s1, acts)
+          | _ => (s1, acts)
+          end
+      | None => (s1, acts)
+      end
+  end.
+
+(* parked before mutex.Lock() *)
+Definition wc_at_lock (pc : wc_pc) : bool :=
+  match pc with WK2 _ | WC2 _ => true | _ => false end.
+Definition wc_at_lock_th (s : wc_state) (i : nat) : bool :=
+  match nth_error (wc_threads s) i with Some th => wc_at_lock (wc_pcof th) | None => false end.
+Definition wc_is_unlock (a : wc_act) : bool := match a with AUnlock => true | _ => false end.
+
+(* result: state, thread inside Lock() afterwards, actions of the step, automatic acquisition *)
+Definition wc_lwstep (s : wc_state) (inlock : option nat) (forced : bool) (i : nat)
+  : wc_state * option nat * list wc_act * option (nat * list wc_act) :=
+  let '(s1, acts) := wc_hstep s (IRun i) in
+  let inlock1 :=
+    match inlock with
+    | Some j => Some j
+    | None => if forced && negb (wc_effective acts) && wc_at_lock_th s i then Some i else None
+    end in
+  match inlock1 with
+  | Some j =>
+      if existsb wc_is_unlock acts
+      then let '(s2, acts2) := wc_step s1 (IRun j) in (s2, None, acts, Some (j, acts2))
+      else (s1, inlock1, acts, None)
+  | None => (s1, None, acts, None)
+  end.
+
+(* a harness schedule: (forced, thread) items *)
+Fixpoint wc_lwrun (s : wc_state) (inlock : option nat) (sched : list (bool * nat)) : wc_state * wc_hist :=
+  match sched with
+  | [] => (s, [])
+  | (f, i) :: rest =>
+      let '(s1, inl1, acts, auto) := wc_lwstep s inlock f i in
+      let '(s2, h) := wc_lwrun s1 inl1 rest in
+      (s2, map (pair i) acts ++ match auto with Some (j, a2) => map (pair j) a2 | None => [] end ++ h)
+  end.
+
+Definition wc_hold_th (s : wc_state) (i : nat) : bool :=
+  match nth_error (wc_threads s) i with Some th => wc_hold (wc_pcof th) | None => false end.
